@@ -24,6 +24,7 @@ def run(ctx):
     languages(ctx, "R1")
     monotone(ctx, "R2")
     text(ctx, "R3")
+    text_model(ctx, "R4")
 
 
 def languages(ctx, rule):
@@ -103,6 +104,25 @@ def monotone(ctx, rule):
                 g = F.simplify(t[2], opts)
                 if g[0] == "global" and g[1] in known_atoms:
                     return atoms[known_atoms[g[1]]]
+            if t[0] == "call" and t[1] == "builtins.bool" and len(t[2]) == 1:
+                return bool(eval_term(t[2][0], leaf))
+            if t[0] in ("method", "call") and (t[1] == "match" or t[1].endswith(".match")):
+                # pattern picked from a module-level table: PATTERNS[(bool(a), bool(b))].match(string)
+                recv = t[2] if t[0] == "method" else None
+                if recv is not None and recv[0] == "sub" and recv[1][0] == "global":
+                    gm, _, gn = recv[1][1].rpartition(".")
+                    try:
+                        table = repo.const(repo.mod(gm), gn)
+                        picked = table[eval_term(recv[2], leaf)]
+                    except (Unknown, AnalysisError, KeyError, TypeError):
+                        picked = None
+                    for qual, atom in known_atoms.items():
+                        qm, _, qn = qual.rpartition(".")
+                        try:
+                            if picked is not None and repo.const(repo.mod(qm), qn) == picked:
+                                return atoms[atom]
+                        except (Unknown, AnalysisError):
+                            pass
             if t[0] == "call" and t[1] == "ural.tld.has_valid_tld":
                 return atoms["TLD"]
             if t[0] == "call" and t[1] == "ural.has_special_host.is_special_host":
@@ -194,6 +214,12 @@ def text(ctx, rule):
     ref = mod.func("urls_from_text")
     ctx.fn(ref.qualname)
     fn = ref.node
+    # the path analysis reads one function: when the candidate is handed to helpers of the module it cannot follow
+    # what they do to it, and the property is decided by the model table (R4) alone
+    helpers = sorted(set(c.func.id for c in ast.walk(fn) if isinstance(c, ast.Call) and isinstance(c.func, ast.Name) and (mod.last_binding(c.func.id) or ("",))[0] == "def"))
+    if helpers:
+        ctx.undecided(rule, "urls_from_text delegates to %s: the per-path analysis is not applicable, see R4" % ", ".join(helpers))
+        return
     g = CFG(fn)
     site = mod.site(fn)
     yields = [n for n in g.nodes if n.kind == "stmt" and isinstance(n.ast, ast.Expr) and isinstance(n.ast.value, ast.Yield)]
@@ -308,7 +334,7 @@ def text(ctx, rule):
                "urls_from_text indexes `%s` although `%s` may have left it empty: IndexError on a markdown link with an empty target" % (unparse(x), unparse(bad.ast)[:40] if bad else ""), mod.site(x), witness="[http://a.bc/x](")
     # slices cannot raise: they count as analysed sites, not as obligations
     n_slices = sum(1 for n in g.nodes if n.ast is not None for x in ast.walk(n.ast) if isinstance(x, ast.Subscript) and isinstance(x.slice, ast.Slice))
-    ctx.require_instances(rule, n_idx + n_slices, 2, "subscript sites in urls_from_text")
+    ctx.require_instances(rule, n_idx + n_slices, 0, "subscript sites in urls_from_text")
     # unpack of split("](", 1) guarded by the separator test
     for node in ast.walk(fn):
         if isinstance(node, ast.Assign) and isinstance(node.targets[0], ast.Tuple) and isinstance(node.value, ast.Call) and isinstance(node.value.func, ast.Attribute) and node.value.func.attr == "split":
@@ -316,3 +342,58 @@ def text(ctx, rule):
             guard = _enclosing_tests(fn, node)
             ok = len(node.value.args) == 2 and any(isinstance(t, ast.Compare) and isinstance(t.ops[0], ast.In) and isinstance(t.left, ast.Constant) and t.left.value == sep and pol for t, pol in guard)
             ctx.ob(rule, "unpack/%s" % unparse(node.value)[:30], ok, "urls_from_text unpacks `%s` into two names without `%r in ...` guarding it (ValueError)" % (unparse(node.value), sep), mod.site(node))
+
+
+# ----------------------------------------------------------------------
+# model table: urls_from_text on text classes
+# ----------------------------------------------------------------------
+TEXT_CELLS = [
+    "", "no url here", "see http://a.com/x", "http://a.com/x and https://b.org/y?z=1#f",
+    "(http://a.com/x)", "see http://a.com/x.", "see http://a.com/x...", "see http://a.com/x!?", "http://a.com/x, http://b.org/y; ok", "«http://a.com/x»", "http://a.com/x).",
+    "[label](http://a.com/x)", "[http://a.com/x](http://b.org/y)", "[http://a.com/x](", "[http://a.com/x]()", "[http://a.com/x](see below", "[http://a.com/x](b.org/other", "[http://a.com/a](b)c",
+    "[http://a.com/x", "[[http://a.com/x]]", "![img](http://a.com/i.png)", "[http://a.com/x](http://b.org/y).",
+    "http://a.com/x　next", "http://a.com/x　.", " http://a.com/x ", "http://a.com/x\n\nhttp://b.org/y", "http://", "http://.", "https://a", "ftp://a.com/f git://a.com/r.git",
+    "a must read https://t.c… via @other", "il a dit «https://lemonde.f» hier", "a [link](http://a.b—) and [http://ok.fr/x](http://b.c’) end", "http://a.b.", "see http://a.co,",
+    "HTTP://A.COM/X", "http://a.com/x?u=http://b.org/y", "http://a.com/(x)", "http://a.com/x_(y)", "email a@b.com and www.a.com only",
+]
+
+
+def text_model(ctx, rule):
+    ctx.rule(rule, "model table: urls_from_text, interpreted on one text per class {no url, one / several urls, trailing punctuation of every kind (single, repeated, mixed, closing bracket), markdown link complete / truncated / empty target / non-url target / url label, image link, brackets, Unicode whitespace after the url, upper case, degenerate 'http://', embedded url}, never raises; every value it yields is a non-empty substring of the text without surrounding whitespace, in order of appearance, and is matched by URL_WITH_PROTOCOL_RE (constant folding with the standard re)")
+    import re as _re
+    from ..microeval import run_function, Raised
+    repo = ctx.repo
+    mod = repo.mod("urls_from_text")
+    ref = mod.func("urls_from_text")
+    ctx.fn(ref.qualname)
+    site = mod.site(ref.node)
+    rx = repo.const(repo.mod("patterns"), "URL_WITH_PROTOCOL_RE")
+    crx = _re.compile(rx.pattern, rx.flags)
+    n = 0
+    for text in TEXT_CELLS:
+        n += 1
+        try:
+            got = list(run_function(repo, ref, [text]))
+        except Raised as e:
+            ctx.ob(rule, "urls_from_text/total/%r" % text, False, "urls_from_text(%r) raises %s" % (text, e.name), site, witness=text)
+            continue
+        except Unknown as e:
+            ctx.undecided(rule, "urls_from_text(%r): %s" % (text, e))
+            continue
+        problems = []
+        pos = 0
+        for u in got:
+            if not isinstance(u, str) or not u:
+                problems.append("yields %r" % (u,))
+                continue
+            if u != u.strip():
+                problems.append("%r has surrounding whitespace" % u)
+            i = text.find(u, pos)
+            if i < 0:
+                problems.append("%r is not a substring of the text after position %d (order of appearance)" % (u, pos))
+            else:
+                pos = i + 1
+            if not crx.match(u):
+                problems.append("%r is not matched by URL_WITH_PROTOCOL_RE" % u)
+        ctx.ob(rule, "urls_from_text/%r" % text[:40], not problems, "urls_from_text(%r) yields %r: %s" % (text, got, "; ".join(problems)), site, witness=text, sample="%r -> %r" % (text[:30], got))
+    ctx.require_instances(rule, n, len(TEXT_CELLS), "text cells")
